@@ -446,6 +446,7 @@ def run(tier):
         # ... and Identity filters under custom names, Identity overrides on streams with strings in their dictionaries
         take([g for g in good if any(e[1] == "Identity" and e[0] != "Identity" for e in g["cfg"]["cf"])
               and any(c["call"] == "Decrypt" and "ok-restored" in c["tags"] for c in g["calls"])], 250)
+        take([g for g in good if g["cfg"]["dn"] == "D9" and any(c["call"] == "Load" for c in g["calls"])], 250)
         take([g for g in good if g["cfg"]["dn"] in ("D2", "D3", "D8") and g["cfg"]["V"] >= 4 and g["cfg"]["strf"] != "Identity"
               and any(c["call"] == "Encrypt" and c["res"] == "Ok" for c in g["calls"])], 250)
         take(bad, 1200)
@@ -506,6 +507,15 @@ def run(tier):
     if not any(g["cfg"]["dn"] in ("D3", "D8") and g["cfg"]["V"] >= 4 and g["cfg"]["strf"] != "Identity" and any(c["call"] == "Encrypt" and c["res"] == "Ok" for c in g["calls"])
                for g in cases):
         raise vlib.ToolError("vacuous replay: no sequence encrypts a stream with an Identity override and a long string in its dictionary under a non-identity StrF")
+    def viafile_roundtrip(g):
+        st = 0
+        for c in g["calls"]:
+            st = 1 if c["call"] == "Encrypt" and c["res"] == "Ok" else 2 if c["call"] == "Save" and st == 1 else 3 if c["call"] == "Load" and st == 2 else st
+            if st == 3 and (("ok-restored" in c["tags"] and c["call"] == "Decrypt") or "ok-loaded-autodecrypted" in c["tags"]):
+                return True
+        return False
+    if not any(g["cfg"]["dn"] == "D9" and g["cfg"]["V"] >= 4 and viafile_roundtrip(g) for g in cases):
+        raise vlib.ToolError("vacuous replay: no sequence takes the stream with an indirect /Length through Encrypt, Save, Load, Decrypt under AES")
     if not any(any(c["call"] == "Rekey" for c in g["calls"][:i]) and g["calls"][i]["call"] == "Encrypt" and g["calls"][i]["res"] == "Ok"
                for g in cases for i in range(len(g["calls"]))):
         raise vlib.ToolError("vacuous replay: no sequence protects a decrypted V4/V5 document again with V2 (Rekey ; Encrypt)")
@@ -531,6 +541,28 @@ def run(tier):
         for nm in (c0["stmf"], c0["strf"]):
             if nm != "Identity" and any(e[0] == nm and e[1] == "Identity" for e in c0["cf"]):
                 itemcls.add("cf.custom-name.identity.default")
+
+        # a stream whose /Length is a reference to an integer object, under a length-changing (AES) stream filter, taken
+        # through Encrypt -> Save -> Load -> Decrypt with a right password
+        def stm_method(o):
+            cr = o["crypt"]
+            nm = c0["stmf"] if cr["f"] == "none" else cr["n"] if cr["f"] in ("name", "arr") else "Identity"
+            return next((e[1] for e in c0["cf"] if e[0] == nm), "Identity" if c0["V"] >= 4 else "RC4")
+        if any(o["k"] == "stream" and o.get("il") and o["len"] > 0 and c0["V"] >= 4 and stm_method(o).startswith("AES") for o in reset["objs"]):
+            st = 0
+            for c in calls:
+                if c["call"] == "Rekey":
+                    break
+                if c["call"] == "Encrypt" and c["res"] == "Ok":
+                    st = 1
+                elif c["call"] == "Save" and st == 1:
+                    st = 2
+                elif c["call"] == "Load" and st == 2:
+                    st = 3
+                elif c["call"] == "Decrypt" and st == 3 and "same" in (c["rel"]["u"], c["rel"]["o"]):
+                    itemcls.add("indirect.length.aes.viafile")
+                elif c["call"] == "Load" and st == 3 and False:
+                    pass
 
         def has_long_str(o):
             return (o["k"] == "str" and o["len"] >= 16) or any(has_long_str(x) for x in o.get("v", []) + o.get("d", []))
@@ -625,7 +657,7 @@ def run(tier):
               ({"streamdict", "metadata", "crypt.name", "crypt.arr", "crypt.nodp", "crypt.noname", "empty.str", "empty.stream", "long.str", "long.stream",
                 "pw.user.unencodable", "pw.owner.unencodable", "pw.emoji", "pw.mixed", "offer.differs.in.unencodable",
                 "rekey.V4+.to.V2-", "crypt.entry.belowV4", "two-revision.objstm.file.loaded", "two-revision.objstm.file.autodecrypt",
-                "two-revision.objstm.file.decrypt", "delete.member", "cf.custom-name.identity.default", "identity.override.name.dict.string",
+                "two-revision.objstm.file.decrypt", "delete.member", "indirect.length.aes.viafile", "cf.custom-name.identity.default", "identity.override.name.dict.string",
                 "identity.override.noname.dict.string", "identity.override.nodp.dict.string", "identity.override.missing-name.dict.string", "empty.offer.with.empty.owner.R56", "crypt.indirect.parameters", "incremental.update.of.encrypted.file", "incremental.update.of.encrypted.file.emptypw", "metadata.dict.string.em=True", "metadata.dict.string.em=False",
                 "prep.mem", "prep.file-objstm", "prep.file-xrefstm", "objstm.container", "objstm.member", "edit", "member.edit.roundtrip"} - itemcls)
     if missing:
